@@ -15,6 +15,8 @@ if os.path.exists(os.path.join(vlib.COQ, 'Properties', 'Properties_C15_routes.v'
     ctx.obligations += ctx2.obligations; ctx.discharged += ctx2.discharged; ctx.axioms.update(ctx2.axioms); ctx.broken += ctx2.broken
     # the same, on the constructor and final() as translated from core.hpp on this run (Gen/GenVptr.v)
     vlib.proof_phase_extra(ctx, 'Properties_C09_source')
+    # update-time diagnosis: augment_methods as translated from compiler.hpp (Gen/GenMeth.v) reports the first unregistered id
+    vlib.proof_phase_extra(ctx, 'Properties_meth_source')
     try:
         mod = importlib.import_module('C15_routes')
         routes_cov = mod.run(ctx)
